@@ -3065,15 +3065,68 @@ theorem CInv_head_facts {n h l : Nat} (hnH : n ≤ 2 ^ (h - 1)) (hl : l + 2 ≤ 
       have := hBlt b hb
       omega
 
+/-- the result map after a layer of `calculatePathNodes` (mirrors `layerStep`) -/
+def resStep (hf : HashFns) (n h l : Nat) : Lay → List (Nat × Bytes) → List Bytes → List (Nat × Bytes)
+  | [], R, _ => R
+  | (k, v) :: rest, R, sibs =>
+    match rest with
+    | (k', w) :: rest' =>
+      if k % 2 = 0 ∧ k' = k + 1 then
+        resStep hf n h l rest' (mapSet R (nIdx h (l + 1) (k / 2)) (hf.branch v w)) sibs
+      else
+        match stepOne hf n l k v sibs with
+        | none => R
+        | some (pv, ss) =>
+          resStep hf n h l ((k', w) :: rest')
+            (if sibOf k * 2 ^ l < n then mapSet R (nIdx h (l + 1) (k / 2)) pv else R) ss
+    | [] =>
+      match stepOne hf n l k v sibs with
+      | none => R
+      | some (pv, _) => if sibOf k * 2 ^ l < n then mapSet R (nIdx h (l + 1) (k / 2)) pv else R
+
+theorem resStep_pair (hf : HashFns) (n h l k : Nat) (v w : Bytes) (rest : Lay) (R : List (Nat × Bytes))
+    (sibs : List Bytes) (hk : k % 2 = 0) :
+    resStep hf n h l ((k, v) :: (k + 1, w) :: rest) R sibs
+      = resStep hf n h l rest (mapSet R (nIdx h (l + 1) (k / 2)) (hf.branch v w)) sibs := by
+  rw [resStep]; simp [hk]
+
+theorem resStep_single (hf : HashFns) (n h l k : Nat) (v : Bytes) (rest : Lay) (R : List (Nat × Bytes))
+    (sibs : List Bytes) (hns : ∀ k' w rest', rest = (k', w) :: rest' → ¬ (k % 2 = 0 ∧ k' = k + 1)) :
+    resStep hf n h l ((k, v) :: rest) R sibs =
+      match stepOne hf n l k v sibs with
+      | none => R
+      | some (pv, ss) =>
+        resStep hf n h l rest (if sibOf k * 2 ^ l < n then mapSet R (nIdx h (l + 1) (k / 2)) pv else R) ss := by
+  cases rest with
+  | nil =>
+    rw [resStep]
+    cases stepOne hf n l k v sibs with
+    | none => rfl
+    | some x => obtain ⟨pv, ss⟩ := x; simp [resStep]
+  | cons a rest' =>
+    obtain ⟨k', w⟩ := a
+    rw [resStep]
+    simp only [if_neg (hns k' w rest' rfl)]
+
+/-- the result map of `calculatePathNodes` from layer `l` on (mirrors `calcSpec`) -/
+def resSpec (hf : HashFns) (n h : Nat) : Nat → Nat → Lay → List (Nat × Bytes) → List Bytes → List (Nat × Bytes)
+  | 0, _, _, R, _ => R
+  | d + 1, l, A, R, sibs =>
+    match layerStep hf n l A sibs with
+    | none => R
+    | some (P, s') => resSpec hf n h d (l + 1) P (resStep hf n h l A R sibs) s'
+
 /-- one node whose sibling is not in the layer: one iteration -/
 theorem calc_single_step (hf : HashFns) (n h : Nat) (hnH : n ≤ 2 ^ (h - 1)) (l : Nat) (hl : l + 2 ≤ h)
     (k : Nat) (v : Bytes) (rest B : Lay) (R C : List (Nat × Bytes)) (sibs : List Bytes) (f : Nat)
     (hinv : CInv n h l ((k, v) :: rest) B R C) (hsep : ∀ a ∈ rest, 2 * (k / 2) + 1 < a.1) :
     (match stepOne hf n l k v sibs with
       | none => calcLoop hf (layerStructure n) n h (f + 1) (wl h l ((k, v) :: rest) B) R C sibs = none
-      | some (pv, ss) => ∃ R' C', CInv n h l rest (B ++ [(k / 2, pv)]) R' C' ∧
+      | some (pv, ss) => ∃ C', CInv n h l rest (B ++ [(k / 2, pv)])
+            (if sibOf k * 2 ^ l < n then mapSet R (nIdx h (l + 1) (k / 2)) pv else R) C' ∧
           calcLoop hf (layerStructure n) n h (f + 1) (wl h l ((k, v) :: rest) B) R C sibs
-            = calcLoop hf (layerStructure n) n h f (wl h l rest (B ++ [(k / 2, pv)])) R' C' ss) ∨
+            = calcLoop hf (layerStructure n) n h f (wl h l rest (B ++ [(k / 2, pv)]))
+                (if sibOf k * 2 ^ l < n then mapSet R (nIdx h (l + 1) (k / 2)) pv else R) C' ss) ∨
     (calcLoop hf (layerStructure n) n h (f + 1) (wl h l ((k, v) :: rest) B) R C sibs = none ∧ 30 < h) := by
   obtain ⟨hk, hBlt, hmb', hAb, hfresh, hsnone⟩ := CInv_head_facts hnH hl hinv
   obtain ⟨va1, va2⟩ := hinv.valA (k, v) (by simp)
@@ -3114,9 +3167,8 @@ theorem calc_single_step (hf : HashFns) (n h : Nat) (hnH : n ≤ 2 ^ (h - 1)) (l
     cases sibs with
     | nil => simp [takeSibling, hsn]
     | cons s ss =>
-      simp only [takeSibling, hsn, parentConflict, hfresh, Bool.false_eq_true, if_false]
-      refine ⟨mapSet R (nIdx h (l + 1) (k / 2)) (if k % 2 = 0 then hf.branch v s else hf.branch s v), C,
-        hadv _ C _ ?_ ?_, ?_⟩
+      simp only [takeSibling, hsn, parentConflict, hfresh, Bool.false_eq_true, if_false, if_pos hlt]
+      refine ⟨C, hadv _ C _ ?_ ?_, ?_⟩
       · intro key hkey
         exact ⟨lookup_mapSet_ne _ _ _ _ hkey, look_mapSet_R_ne _ _ _ _ _ hkey⟩
       · refine ⟨look_mapSet_R_self _ _ _ _, ?_⟩
@@ -3137,8 +3189,8 @@ theorem calc_single_step (hf : HashFns) (n h : Nat) (hnH : n ≤ 2 ^ (h - 1)) (l
       · simp only [Nat.add_sub_cancel] at h2
         have : sibOf k = 2 * (k / 2) + 1 := by unfold sibOf; rw [if_pos hev]; omega
         rw [this] at hlt; omega
-    simp only
-    refine ⟨R, mapSet C (nIdx h (l + 1) (k / 2)) v, hadv R _ _ ?_ ?_, ?_⟩
+    simp only [if_neg hlt]
+    refine ⟨mapSet C (nIdx h (l + 1) (k / 2)) v, hadv R _ _ ?_ ?_, ?_⟩
     · intro key hkey
       exact ⟨rfl, look_mapSet_C_ne _ _ _ _ _ hkey⟩
     · refine ⟨look_mapSet_C_self _ _ _ _ hfresh, ?_⟩
@@ -3151,9 +3203,10 @@ theorem calc_single_step (hf : HashFns) (n h : Nat) (hnH : n ≤ 2 ^ (h - 1)) (l
 theorem calc_pair_step (hf : HashFns) (n h : Nat) (hnH : n ≤ 2 ^ (h - 1)) (l : Nat) (hl : l + 2 ≤ h)
     (k : Nat) (v w : Bytes) (rest B : Lay) (R C : List (Nat × Bytes)) (sibs : List Bytes) (f : Nat)
     (hinv : CInv n h l ((k, v) :: (k + 1, w) :: rest) B R C) (hev : k % 2 = 0) :
-    (∃ R' C', CInv n h l rest (B ++ [(k / 2, hf.branch v w)]) R' C' ∧
+    (∃ C', CInv n h l rest (B ++ [(k / 2, hf.branch v w)]) (mapSet R (nIdx h (l + 1) (k / 2)) (hf.branch v w)) C' ∧
         calcLoop hf (layerStructure n) n h (f + 1 + 1) (wl h l ((k, v) :: (k + 1, w) :: rest) B) R C sibs
-          = calcLoop hf (layerStructure n) n h f (wl h l rest (B ++ [(k / 2, hf.branch v w)])) R' C' sibs) ∨
+          = calcLoop hf (layerStructure n) n h f (wl h l rest (B ++ [(k / 2, hf.branch v w)]))
+              (mapSet R (nIdx h (l + 1) (k / 2)) (hf.branch v w)) C' sibs) ∨
     (calcLoop hf (layerStructure n) n h (f + 1 + 1) (wl h l ((k, v) :: (k + 1, w) :: rest) B) R C sibs = none
       ∧ 30 < h) := by
   obtain ⟨hk, hBlt, hmb', hAb, hfresh, _⟩ := CInv_head_facts hnH hl hinv
@@ -3196,7 +3249,7 @@ theorem calc_pair_step (hf : HashFns) (n h : Nat) (hnH : n ≤ 2 ^ (h - 1)) (l :
   simp only [takeSibling, hl2, parentConflict, lookup_mapSet_self, if_neg (show ¬ (k + 1) % 2 = 0 by omega),
     bne_self_eq_false, Bool.false_eq_true, if_false]
   rw [insertIdx_wl_last (by omega) hmb' rest B hAb' hBlt, mapSet_idem, ← wl_snoc h l rest B (k / 2) (hf.branch v w)]
-  refine ⟨_, C, ?_, rfl⟩
+  refine ⟨C, ?_, rfl⟩
   have hproper : proper n (l + 1) (k / 2) := by
     right
     refine ⟨by omega, ?_⟩
@@ -3224,9 +3277,9 @@ theorem calcLayer (hf : HashFns) (n h : Nat) (hnH : n ≤ 2 ^ (h - 1)) (l : Nat)
       A.length = m → CInv n h l A B R C → m ≤ f →
       (match layerStep hf n l A sibs with
         | none => calcLoop hf (layerStructure n) n h f (wl h l A B) R C sibs = none
-        | some (P, s') => ∃ R' C', CInv n h l [] (B ++ P) R' C' ∧
+        | some (P, s') => ∃ C', CInv n h l [] (B ++ P) (resStep hf n h l A R sibs) C' ∧
             calcLoop hf (layerStructure n) n h f (wl h l A B) R C sibs
-              = calcLoop hf (layerStructure n) n h (f - m) (wl h l [] (B ++ P)) R' C' s') ∨
+              = calcLoop hf (layerStructure n) n h (f - m) (wl h l [] (B ++ P)) (resStep hf n h l A R sibs) C' s') ∨
       (calcLoop hf (layerStructure n) n h f (wl h l A B) R C sibs = none ∧ 30 < h) := by
   intro m
   induction m using Nat.strongRecOn with
@@ -3238,19 +3291,19 @@ theorem calcLayer (hf : HashFns) (n h : Nat) (hnH : n ≤ 2 ^ (h - 1)) (l : Nat)
       simp only [layerStep]
       simp only [List.length_nil] at hm
       subst hm
-      exact ⟨R, C, by simpa using hinv, by simp⟩
+      exact ⟨C, by simpa [resStep] using hinv, by simp [resStep]⟩
     | (k, v) :: rest, hm =>
       simp only [List.length_cons] at hm
       by_cases hp : ∃ w rest', rest = (k + 1, w) :: rest' ∧ k % 2 = 0
       · obtain ⟨w, rest', rfl, hev⟩ := hp
         simp only [List.length_cons] at hm
         obtain ⟨f', rfl⟩ : ∃ f', f = f' + 1 + 1 := ⟨f - 2, by omega⟩
-        rw [layerStep_pair hf n l k v w rest' sibs hev]
-        rcases calc_pair_step hf n h hnH l hl k v w rest' B R C sibs f' hinv hev with ⟨R1, C1, hinv1, heq⟩ | hfail
+        rw [layerStep_pair hf n l k v w rest' sibs hev, resStep_pair hf n h l k v w rest' R sibs hev]
+        rcases calc_pair_step hf n h hnH l hl k v w rest' B R C sibs f' hinv hev with ⟨C1, hinv1, heq⟩ | hfail
         swap
         · right; exact hfail
         rw [heq]
-        have := ih rest'.length (by omega) rest' _ R1 C1 sibs f' rfl hinv1 (by omega)
+        have := ih rest'.length (by omega) rest' _ _ C1 sibs f' rfl hinv1 (by omega)
         rcases this with hthis | hfail
         swap
         · right; exact hfail
@@ -3261,15 +3314,15 @@ theorem calcLayer (hf : HashFns) (n h : Nat) (hnH : n ≤ 2 ^ (h - 1)) (l : Nat)
           obtain ⟨P, s'⟩ := x
           rw [hr] at hthis
           simp only at hthis ⊢
-          obtain ⟨R', C', hinv', heq'⟩ := hthis
-          refine ⟨R', C', by simpa using hinv', ?_⟩
+          obtain ⟨C', hinv', heq'⟩ := hthis
+          refine ⟨C', by simpa using hinv', ?_⟩
           rw [heq', show f' + 1 + 1 - m = f' - rest'.length by omega]
           simp
       · have hns : ∀ k' w rest', rest = (k', w) :: rest' → ¬ (k % 2 = 0 ∧ k' = k + 1) := by
           intro k' w rest' e hc
           exact hp ⟨w, rest', by rw [e, hc.2], hc.1⟩
         obtain ⟨f', rfl⟩ : ∃ f', f = f' + 1 := ⟨f - 1, by omega⟩
-        rw [layerStep_single hf n l k v rest sibs hns]
+        rw [layerStep_single hf n l k v rest sibs hns, resStep_single hf n h l k v rest R sibs hns]
         have hsep : ∀ a ∈ rest, 2 * (k / 2) + 1 < a.1 := by
           intro a ha
           have hasc := List.pairwise_cons.mp hinv.ascA
@@ -3295,9 +3348,9 @@ theorem calcLayer (hf : HashFns) (n h : Nat) (hnH : n ≤ 2 ^ (h - 1)) (l : Nat)
           obtain ⟨pv, ss⟩ := y
           rw [ho] at hstep
           simp only at hstep ⊢
-          obtain ⟨R1, C1, hinv1, heq⟩ := hstep
+          obtain ⟨C1, hinv1, heq⟩ := hstep
           rw [heq]
-          have := ih rest.length (by omega) rest _ R1 C1 ss f' rfl hinv1 (by omega)
+          have := ih rest.length (by omega) rest _ _ C1 ss f' rfl hinv1 (by omega)
           rcases this with hthis | hfail
           swap
           · right; exact hfail
@@ -3308,8 +3361,8 @@ theorem calcLayer (hf : HashFns) (n h : Nat) (hnH : n ≤ 2 ^ (h - 1)) (l : Nat)
             obtain ⟨P, s'⟩ := x
             rw [hr] at hthis
             simp only at hthis ⊢
-            obtain ⟨R', C', hinv', heq'⟩ := hthis
-            refine ⟨R', C', by simpa using hinv', ?_⟩
+            obtain ⟨C', hinv', heq'⟩ := hthis
+            refine ⟨C', by simpa using hinv', ?_⟩
             rw [heq', show f' + 1 - m = f' - rest.length by omega]
             simp
 
@@ -3363,8 +3416,8 @@ theorem calcLoop_spec (hf : HashFns) (n h : Nat) (hnH : n ≤ 2 ^ (h - 1)) (hh :
       l + d = h - 1 → A ≠ [] → CInv n h l A [] R C → d * A.length + 1 ≤ f →
       (match calcSpec hf n d l A sibs with
         | none => calcLoop hf (layerStructure n) n h f (wl h l A []) R C sibs = none
-        | some r => ∃ res, calcLoop hf (layerStructure n) n h f (wl h l A []) R C sibs = some res ∧
-            res.lookup 2 = some r) ∨
+        | some r => calcLoop hf (layerStructure n) n h f (wl h l A []) R C sibs
+              = some (resSpec hf n h d l A R sibs) ∧ (resSpec hf n h d l A R sibs).lookup 2 = some r) ∨
       (calcLoop hf (layerStructure n) n h f (wl h l A []) R C sibs = none ∧ 30 < h) := by
   intro d
   induction d with
@@ -3400,8 +3453,8 @@ theorem calcLoop_spec (hf : HashFns) (n h : Nat) (hnH : n ≤ 2 ^ (h - 1)) (hh :
       have hv := (hinv.valA (0, r) (by simp)).2
       rw [repLoc_proper hprop] at hv
       simp only [locIdx, hidx] at hv
-      refine ⟨R, ?_, hv⟩
-      simp [wl, hidx, calcLoop]
+      refine ⟨?_, by simpa [resSpec] using hv⟩
+      simp [wl, hidx, calcLoop, resSpec]
     | e1 :: e2 :: rest, _ =>
       exfalso
       have h1 := hzero e1 (by simp)
@@ -3417,14 +3470,14 @@ theorem calcLoop_spec (hf : HashFns) (n h : Nat) (hnH : n ≤ 2 ^ (h - 1)) (hh :
     rcases calcLayer hf n h hnH l hl A.length A [] R C sibs f rfl hinv hfA with hlay | hfail
     swap
     · right; exact hfail
-    simp only [calcSpec]
+    simp only [calcSpec, resSpec]
     cases hr : layerStep hf n l A sibs with
     | none => rw [hr] at hlay; left; exact hlay
     | some x =>
       obtain ⟨P, s'⟩ := x
       rw [hr] at hlay
       simp only at hlay ⊢
-      obtain ⟨R', C', hinv', heq⟩ := hlay
+      obtain ⟨C', hinv', heq⟩ := hlay
       simp only [List.nil_append] at hinv' heq
       have hlenP := (layerStep_ok hf n l A.length A sibs P s' rfl hinv.okA hr).2
       have hPne := layerStep_nonempty hf n l A sibs P s' hne hr
@@ -3434,7 +3487,7 @@ theorem calcLoop_spec (hf : HashFns) (n h : Nat) (hnH : n ≤ 2 ^ (h - 1)) (hh :
         have h1 : d * P.length ≤ d * A.length := Nat.mul_le_mul_left _ hlenP
         have : (d + 1) * A.length = d * A.length + A.length := by ring
         omega
-      exact ih (l + 1) P R' C' s' (f - A.length) (by omega) hPne (CInv_next hinv') hfuel
+      exact ih (l + 1) P _ C' s' (f - A.length) (by omega) hPne (CInv_next hinv') hfuel
 
 
 /-! ### `calculatePathNodes` / `VerifyProof` for several leaves and the specification -/
@@ -3614,7 +3667,9 @@ theorem calcPathNodes_spec (hf : HashFns) (n : Nat) (hn : 1 ≤ n) (pos : List N
     (hnd : pos.Nodup) (hlt : ∀ p ∈ pos, p < n) (hlen : q.length = pos.length) (hne : pos ≠ []) :
     (match calcSpec hf n (getHeight n - 1) 0 (layer0 pos q) sibs with
       | none => calcPathNodes hf q n (pos.map fun p => 2 ^ getHeight n + p) sibs = none
-      | some r => ∃ res, calcPathNodes hf q n (pos.map fun p => 2 ^ getHeight n + p) sibs = some res ∧
+      | some r => ∃ res, res = resSpec hf n (getHeight n) (getHeight n - 1) 0 (layer0 pos q)
+            (initResult q (pos.map fun p => 2 ^ getHeight n + p) []) sibs ∧
+          calcPathNodes hf q n (pos.map fun p => 2 ^ getHeight n + p) sibs = some res ∧
           res.lookup 2 = some r) ∨
     (calcPathNodes hf q n (pos.map fun p => 2 ^ getHeight n + p) sibs = none ∧ 30 < getHeight n) := by
   have hh1 : 1 ≤ getHeight n := by simp [getHeight]
@@ -3651,8 +3706,15 @@ theorem calcPathNodes_spec (hf : HashFns) (n : Nat) (hn : 1 ≤ n) (pos : List N
       have := bitLen_nIdx (show e.1 < 2 ^ (getHeight n - 0) by omega)
       simpa using this
   rw [hsum]
-  refine calcLoop_spec hf n (getHeight n) hnH hh1 htop (getHeight n - 1) 0 (layer0 pos q) _ [] sibs _ (by omega)
+  have hmain := calcLoop_spec hf n (getHeight n) hnH hh1 htop (getHeight n - 1) 0 (layer0 pos q)
+    (initResult q (pos.map fun p => 2 ^ getHeight n + p) []) [] sibs (pos.length * (getHeight n + 1) + 1) (by omega)
     hA0ne (CInv_init n (getHeight n) pos q hnd hlt hlen) ?_
+  · rcases hmain with hm | hm
+    · left
+      cases hc : calcSpec hf n (getHeight n - 1) 0 (layer0 pos q) sibs with
+      | none => rw [hc] at hm; exact hm
+      | some r => rw [hc] at hm; exact ⟨_, rfl, hm.1, hm.2⟩
+    · right; exact hm
   rw [hl0]
   have : (getHeight n - 1) * pos.length ≤ pos.length * (getHeight n + 1) := by
     rw [Nat.mul_comm]; exact Nat.mul_le_mul_left _ (by omega)
@@ -3672,7 +3734,7 @@ theorem verify_calcSpec (hf : HashFns) (n : Nat) (hn : 1 ≤ n) (pos : List Nat)
     | some r =>
       rw [hc] at hs
       simp only at hs
-      obtain ⟨res, h1, h2⟩ := hs
+      obtain ⟨res, _, h1, h2⟩ := hs
       rw [h1] at hv
       simp only [h2, beq_iff_eq] at hv
       rw [hv]
@@ -3688,7 +3750,7 @@ theorem calcSpec_verify (hf : HashFns) (n : Nat) (hn : 1 ≤ n) (pos : List Nat)
   rcases calcPathNodes_spec hf n hn pos q sibs hnd hlt hlen hne with hc | ⟨_, h30⟩
   · rw [hs] at hc
     simp only at hc
-    obtain ⟨res, h1, h2⟩ := hc
+    obtain ⟨res, _, h1, h2⟩ := hc
     rw [h1]
     simp [h2]
   · omega
@@ -4416,6 +4478,672 @@ theorem append_ok (hf : HashFns) (t : Tree) (c : Ctr) (v : Bytes) (hw : Ctr.WF 0
     simp only at hok
     subst hok
     rfl
+
+
+/-! ### recomputation from new leaf values with the sibling hashes of the old tree -/
+
+instance (n l k : Nat) : Decidable (proper n l k) := by unfold proper; exact inferInstance
+
+theorem stepOne_val_mixed (hf : HashFns) (L M : List Bytes) (hlen : M.length = L.length) (l k : Nat)
+    (extra : List Bytes) (hk : k * 2 ^ l < L.length)
+    (hU : sibOf k * 2 ^ l < L.length → rootH hf (blk L l (sibOf k)) = rootH hf (blk M l (sibOf k))) :
+    stepOne hf L.length l k (rootH hf (blk M l k)) (sibOne hf L l k ++ extra)
+      = some (rootH hf (blk M (l + 1) (k / 2)), extra) := by
+  have hpar := rootH_blk_parent hf M l k (by rw [hlen]; exact hk)
+  rw [hlen] at hpar
+  unfold stepOne sibOne
+  by_cases hs : sibOf k * 2 ^ l < L.length
+  · rw [if_pos hs] at hpar ⊢
+    rw [if_pos hs, hpar, hU hs]
+    simp
+  · rw [if_neg hs] at hpar ⊢
+    rw [if_neg hs, hpar]
+    simp
+
+/-- the nodes of the layer with positions at least `low` cover the updated leaves from `low` on -/
+def Covers (pos : List Nat) (l : Nat) (A : List Nat) (low : Nat) : Prop :=
+  ∀ p ∈ pos, p / 2 ^ l ∈ A ∨ p / 2 ^ l < low
+
+theorem layer_mixed (hf : HashFns) (L M : List Bytes) (hlen : M.length = L.length) (h : Nat) (pos : List Nat)
+    (l : Nat)
+    (hU : ∀ k, (∀ p ∈ pos, p / 2 ^ l ≠ k) → k * 2 ^ l < L.length → rootH hf (blk L l k) = rootH hf (blk M l k)) :
+    ∀ (m : Nat) (A : List Nat) (low : Nat) (R : List (Nat × Bytes)) (extra : List Bytes), A.length = m →
+      (∀ k ∈ A, k * 2 ^ l < L.length) → A.Pairwise (· < ·) → (∀ k ∈ A, low ≤ k) → low % 2 = 0 →
+      Covers pos l A low →
+      layerStep hf L.length l (valLay hf M l A) ((sibLayer hf L l A).1 ++ extra)
+        = some (valLay hf M (l + 1) (sibLayer hf L l A).2, extra) ∧
+      (∀ key, (∀ k ∈ A, key ≠ nIdx h (l + 1) (k / 2)) →
+        (resStep hf L.length h l (valLay hf M l A) R ((sibLayer hf L l A).1 ++ extra)).lookup key = R.lookup key) ∧
+      (∀ k ∈ A, (resStep hf L.length h l (valLay hf M l A) R ((sibLayer hf L l A).1 ++ extra)).lookup
+          (nIdx h (l + 1) (k / 2)) =
+        if proper L.length (l + 1) (k / 2) then some (rootH hf (blk M (l + 1) (k / 2)))
+        else R.lookup (nIdx h (l + 1) (k / 2))) := by
+  intro m
+  induction m using Nat.strongRecOn with
+  | _ m ih =>
+    intro A low R extra hm hok hasc hlow hev hcov
+    match A, hm with
+    | [], _ =>
+      refine ⟨by simp [sibLayer, valLay, layerStep], ?_, ?_⟩
+      · intro key _; simp [valLay, resStep]
+      · intro k hk; cases hk
+    | k :: rest, hm =>
+      simp only [List.length_cons] at hm
+      have hk : k * 2 ^ l < L.length := hok k (by simp)
+      have hrest : ∀ a ∈ rest, a * 2 ^ l < L.length := fun a ha => hok a (by simp [ha])
+      have hasc' := List.pairwise_cons.mp hasc
+      have hlk := hlow k (by simp)
+      by_cases hp : ∃ rest', rest = (k + 1) :: rest' ∧ k % 2 = 0
+      · obtain ⟨rest', rfl, hk2⟩ := hp
+        have hk1 : (k + 1) * 2 ^ l < L.length := hrest (k + 1) (by simp)
+        have hasc'' := List.pairwise_cons.mp hasc'.2
+        have hpar : rootH hf (blk M (l + 1) (k / 2))
+            = hf.branch (rootH hf (blk M l k)) (rootH hf (blk M l (k + 1))) := by
+          have := rootH_blk_pair hf M l (k / 2) (by rw [hlen, show 2 * (k / 2) + 1 = k + 1 by omega]; exact hk1)
+          rw [show 2 * (k / 2) = k by omega] at this
+          exact this
+        have hprop : proper L.length (l + 1) (k / 2) := by
+          right; refine ⟨by omega, ?_⟩
+          simp only [Nat.add_sub_cancel]
+          rw [show 2 * (k / 2) + 1 = k + 1 by omega]; exact hk1
+        obtain ⟨i1, i2, i3⟩ := ih rest'.length (by simp at hm; omega) rest' (k + 2)
+          (mapSet R (nIdx h (l + 1) (k / 2)) (hf.branch (rootH hf (blk M l k)) (rootH hf (blk M l (k + 1))))) extra rfl
+          (fun a ha => hrest a (by simp [ha])) hasc''.2
+          (by intro a ha; have := hasc''.1 a ha; omega) (by omega)
+          (by
+            intro p hp
+            rcases hcov p hp with hc | hc
+            · simp only [List.mem_cons] at hc
+              rcases hc with hc | hc | hc
+              · right; omega
+              · right; omega
+              · left; exact hc
+            · right; omega)
+        rw [sibLayer_pair hf L l k rest' hk2]
+        simp only [valLay, List.map_cons]
+        rw [layerStep_pair hf _ l k _ _ _ _ hk2, resStep_pair hf _ h l k _ _ _ _ _ hk2]
+        simp only [valLay] at i1 i2 i3
+        rw [i1]
+        refine ⟨by simp only [hpar], ?_, ?_⟩
+        · intro key hkey
+          rw [i2 key (fun a ha => hkey a (by simp [ha])), lookup_mapSet_ne _ _ _ _ (hkey k (by simp))]
+        · intro a ha
+          simp only [List.mem_cons] at ha
+          have hfirst : ∀ a, a / 2 = k / 2 →
+              (resStep hf L.length h l (List.map (fun k => (k, rootH hf (blk M l k))) rest')
+                (mapSet R (nIdx h (l + 1) (k / 2)) (hf.branch (rootH hf (blk M l k)) (rootH hf (blk M l (k + 1)))))
+                ((sibLayer hf L l rest').1 ++ extra)).lookup (nIdx h (l + 1) (a / 2)) =
+              if proper L.length (l + 1) (a / 2) then some (rootH hf (blk M (l + 1) (a / 2)))
+              else R.lookup (nIdx h (l + 1) (a / 2)) := by
+            intro a hak
+            rw [hak, if_pos hprop, i2 _ (by
+              intro b hb e
+              have := hasc''.1 b hb
+              unfold nIdx at e; omega), lookup_mapSet_self, hpar]
+          rcases ha with rfl | rfl | ha
+          · exact hfirst _ rfl
+          · exact hfirst _ (by omega)
+          · rw [i3 a ha]
+            have hne : nIdx h (l + 1) (a / 2) ≠ nIdx h (l + 1) (k / 2) := by
+              have := hasc''.1 a ha
+              unfold nIdx; omega
+            rw [lookup_mapSet_ne _ _ _ _ hne]
+      · have hns : ∀ k' rest', rest = k' :: rest' → ¬ (k % 2 = 0 ∧ k' = k + 1) := by
+          intro k' rest' e hc
+          exact hp ⟨rest', by rw [e, hc.2], hc.1⟩
+        have hsep : ∀ a ∈ rest, 2 * (k / 2) + 1 < a := by
+          intro a ha
+          have h1 := hasc'.1 a ha
+          cases rest with
+          | nil => cases ha
+          | cons b r =>
+            have hnot := hns b r rfl
+            have hb := hasc'.1 b (by simp)
+            simp only [List.mem_cons] at ha
+            rcases ha with rfl | ha
+            · omega
+            · have := (List.pairwise_cons.mp hasc'.2).1 a ha
+              omega
+        -- the sibling is not an ancestor of an updated leaf
+        have hsibU : sibOf k * 2 ^ l < L.length → rootH hf (blk L l (sibOf k)) = rootH hf (blk M l (sibOf k)) := by
+          intro hs
+          apply hU _ _ hs
+          intro p hp e
+          rcases hcov p hp with hc | hc
+          · rw [e] at hc
+            simp only [List.mem_cons] at hc
+            rcases hc with hc | hc
+            · exact sibOf_ne k hc
+            · have h1 := hsep _ hc
+              have h2 := hasc'.1 _ hc
+              unfold sibOf at h1 h2
+              split at h1 <;> omega
+          · rw [e] at hc
+            unfold sibOf at hc
+            split at hc <;> omega
+        have hone := stepOne_val_mixed hf L M hlen l k ((sibLayer hf L l rest).1 ++ extra) hk hsibU
+        obtain ⟨i1, i2, i3⟩ := ih rest.length (by omega) rest (2 * (k / 2) + 2)
+          (if sibOf k * 2 ^ l < L.length then mapSet R (nIdx h (l + 1) (k / 2)) (rootH hf (blk M (l + 1) (k / 2))) else R)
+          extra rfl hrest hasc'.2 (by intro a ha; have := hsep a ha; omega) (by omega)
+          (by
+            intro p hp
+            rcases hcov p hp with hc | hc
+            · simp only [List.mem_cons] at hc
+              rcases hc with hc | hc
+              · right; omega
+              · left; exact hc
+            · right; omega)
+        rw [sibLayer_single hf L l k rest hns]
+        simp only [valLay, List.map_cons]
+        have hns' : ∀ k' w rest', List.map (fun k => (k, rootH hf (blk M l k))) rest = (k', w) :: rest' →
+            ¬ (k % 2 = 0 ∧ k' = k + 1) := by
+          intro k' w rest' e hc
+          cases rest with
+          | nil => simp at e
+          | cons a r =>
+            simp only [List.map_cons, List.cons.injEq, Prod.mk.injEq] at e
+            exact hns a r rfl ⟨hc.1, by rw [e.1.1]; exact hc.2⟩
+        rw [layerStep_single hf _ l k _ _ _ hns', resStep_single hf _ h l k _ _ _ _ hns']
+        rw [List.append_assoc, hone]
+        simp only [valLay] at i1 i2 i3
+        simp only
+        rw [i1]
+        have hpropiff : proper L.length (l + 1) (k / 2) ↔ sibOf k * 2 ^ l < L.length := by
+          constructor
+          · intro hpr
+            rcases hpr with ⟨h0, _⟩ | ⟨_, h2⟩
+            · omega
+            · simp only [Nat.add_sub_cancel] at h2
+              have : sibOf k ≤ 2 * (k / 2) + 1 := by unfold sibOf; split <;> omega
+              have := Nat.mul_le_mul_right (2 ^ l) this
+              omega
+          · intro hs
+            right; refine ⟨by omega, ?_⟩
+            simp only [Nat.add_sub_cancel]
+            have : (2 * (k / 2) + 1) ≤ max k (sibOf k) := by unfold sibOf; split <;> omega
+            have h2 : (2 * (k / 2) + 1) * 2 ^ l ≤ max k (sibOf k) * 2 ^ l := Nat.mul_le_mul_right _ this
+            rcases Nat.le_total k (sibOf k) with h3 | h3
+            · rw [Nat.max_eq_right h3] at h2; omega
+            · rw [Nat.max_eq_left h3] at h2; omega
+        refine ⟨rfl, ?_, ?_⟩
+        · intro key hkey
+          rw [i2 key (fun a ha => hkey a (by simp [ha]))]
+          split
+          · exact lookup_mapSet_ne _ _ _ _ (hkey k (by simp))
+          · rfl
+        · intro a ha
+          simp only [List.mem_cons] at ha
+          rcases ha with rfl | ha
+          · rw [i2 _ (by
+              intro b hb e
+              have := hsep b hb
+              unfold nIdx at e; omega)]
+            by_cases hs : sibOf a * 2 ^ l < L.length
+            · rw [if_pos hs, if_pos (hpropiff.2 hs), lookup_mapSet_self]
+            · rw [if_neg hs, if_neg (fun hpr => hs (hpropiff.1 hpr))]
+          · rw [i3 a ha]
+            have hne : nIdx h (l + 1) (a / 2) ≠ nIdx h (l + 1) (k / 2) := by
+              have := hsep a ha
+              unfold nIdx; omega
+            split
+            · rfl
+            · split
+              · exact lookup_mapSet_ne _ _ _ _ hne
+              · rfl
+
+
+theorem sibLayer_parents_mem (hf : HashFns) (L : List Bytes) (l : Nat) : ∀ (m : Nat) (A : List Nat), A.length = m →
+    ∀ a ∈ A, a / 2 ∈ (sibLayer hf L l A).2 := by
+  intro m
+  induction m using Nat.strongRecOn with
+  | _ m ih =>
+    intro A hm a ha
+    match A, hm with
+    | [], _ => cases ha
+    | k :: rest, hm =>
+      by_cases hp : ∃ rest', rest = (k + 1) :: rest' ∧ k % 2 = 0
+      · obtain ⟨rest', rfl, hk2⟩ := hp
+        rw [sibLayer_pair hf L l k rest' hk2]
+        simp only [List.mem_cons] at ha ⊢
+        rcases ha with rfl | rfl | ha
+        · left; rfl
+        · left; omega
+        · right; exact ih rest'.length (by simp at hm; omega) rest' rfl a ha
+      · rw [sibLayer_single hf L l k rest (by
+          intro k' rest' e hc
+          exact hp ⟨rest', by rw [e, hc.2], hc.1⟩)]
+        simp only [List.mem_cons] at ha ⊢
+        rcases ha with rfl | ha
+        · left; rfl
+        · right; exact ih rest.length (by simp at hm; omega) rest rfl a ha
+
+theorem div_pow_succ' (a j : Nat) : a / 2 ^ (j + 1) = a / 2 / 2 ^ j := by
+  rw [Nat.pow_succ, Nat.mul_comm, ← Nat.div_div_eq_div_mul]
+
+theorem anc_nonempty {n l a : Nat} (j : Nat) (h : a * 2 ^ l < n) : a / 2 ^ j * 2 ^ (l + j) < n := by
+  have : a / 2 ^ j * 2 ^ (l + j) ≤ a * 2 ^ l := by
+    rw [Nat.pow_add, Nat.mul_comm (2 ^ l), ← Nat.mul_assoc]
+    exact Nat.mul_le_mul_right _ (Nat.div_mul_le_self a (2 ^ j))
+  omega
+
+/-- recomputation over all layers: the root of the new list, and the result map holds exactly the proper
+ancestors of the given nodes, with their values in the new list -/
+theorem spec_mixed (hf : HashFns) (L M : List Bytes) (hlen : M.length = L.length) (h : Nat)
+    (hnH : L.length ≤ 2 ^ (h - 1)) (pos : List Nat)
+    (hU : ∀ l k, (∀ p ∈ pos, p / 2 ^ l ≠ k) → k * 2 ^ l < L.length → rootH hf (blk L l k) = rootH hf (blk M l k)) :
+    ∀ (d l : Nat) (A : List Nat) (R : List (Nat × Bytes)) (extra : List Bytes), l + d = h - 1 → A ≠ [] →
+      (∀ k ∈ A, k * 2 ^ l < L.length) → A.Pairwise (· < ·) → Covers pos l A 0 →
+      calcSpec hf L.length d l (valLay hf M l A) (sibSpec hf L d l A ++ extra) = some (rootH hf M) ∧
+      (∀ key, (∀ a ∈ A, ∀ j, 1 ≤ j → j ≤ d → key ≠ nIdx h (l + j) (a / 2 ^ j)) →
+        (resSpec hf L.length h d l (valLay hf M l A) R (sibSpec hf L d l A ++ extra)).lookup key = R.lookup key) ∧
+      (∀ a ∈ A, ∀ j, 1 ≤ j → j ≤ d →
+        (resSpec hf L.length h d l (valLay hf M l A) R (sibSpec hf L d l A ++ extra)).lookup (nIdx h (l + j) (a / 2 ^ j)) =
+          if proper L.length (l + j) (a / 2 ^ j) then some (rootH hf (blk M (l + j) (a / 2 ^ j)))
+          else R.lookup (nIdx h (l + j) (a / 2 ^ j))) := by
+  intro d
+  induction d with
+  | zero =>
+    intro l A R extra hld hne hok hasc _
+    have hl : l = h - 1 := by omega
+    subst hl
+    have hp : 0 < 2 ^ (h - 1) := Nat.pow_pos (by decide)
+    have hzero : ∀ k ∈ A, k = 0 := by
+      intro k hk
+      have := hok k hk
+      rcases Nat.eq_zero_or_pos k with h0 | h0
+      · exact h0
+      · have : 2 ^ (h - 1) ≤ k * 2 ^ (h - 1) := Nat.le_mul_of_pos_left _ h0
+        omega
+    refine ⟨?_, by intro key _; simp [resSpec], by intro a _ j h1 h2; omega⟩
+    match A, hne with
+    | [k], _ =>
+      have := hzero k (by simp)
+      subst this
+      simp [calcSpec, valLay, blk_top_all M (h - 1) (by rw [hlen]; exact hnH)]
+    | k :: k' :: r, _ =>
+      have h1 := hzero k (by simp)
+      have h2 := hzero k' (by simp)
+      have := (List.pairwise_cons.mp hasc).1 k' (by simp)
+      omega
+  | succ d ih =>
+    intro l A R extra hld hne hok hasc hcov
+    obtain ⟨s1, s2, s3⟩ := layer_mixed hf L M hlen h pos l (hU l) A.length A 0 R
+      (sibSpec hf L d (l + 1) (sibLayer hf L l A).2 ++ extra) rfl hok hasc (fun _ _ => Nat.zero_le _) rfl hcov
+    obtain ⟨k1, k2, k3, k4⟩ := sibLayer_ok hf L l A.length A rfl hok hasc
+    have hcov' : Covers pos (l + 1) (sibLayer hf L l A).2 0 := by
+      intro p hp
+      left
+      rcases hcov p hp with hc | hc
+      · rw [div_pow_succ]
+        exact sibLayer_parents_mem hf L l A.length A rfl _ hc
+      · exact absurd hc (Nat.not_lt_zero _)
+    obtain ⟨i1, i2, i3⟩ := ih (l + 1) (sibLayer hf L l A).2
+      (resStep hf L.length h l (valLay hf M l A) R
+        ((sibLayer hf L l A).1 ++ (sibSpec hf L d (l + 1) (sibLayer hf L l A).2 ++ extra))) extra (by omega)
+      (fun e => hne (k4 e)) k1 k2 hcov'
+    simp only [calcSpec, resSpec, sibSpec, List.append_assoc, s1]
+    have hbound : ∀ a ∈ A, ∀ j, l + j ≤ h - 1 → a / 2 ^ j < 2 ^ (h - (l + j)) := by
+      intro a ha j hj
+      exact Nat.lt_of_lt_of_le (pos_lt_of_nonempty hnH hj (anc_nonempty j (hok a ha))) pow_pred_le
+    refine ⟨i1, ?_, ?_⟩
+    · intro key hkey
+      rw [i2 key (by
+        intro b hb j h1 h2
+        obtain ⟨a, ha, rfl⟩ := k3 b hb
+        have := hkey a ha (j + 1) (by omega) (by omega)
+        rw [div_pow_succ'] at this
+        rw [show l + 1 + j = l + (j + 1) by omega]; exact this)]
+      exact s2 key (fun a ha => by simpa using hkey a ha 1 (by omega) (by omega))
+    · intro a ha j h1 h2
+      have hpa := sibLayer_parents_mem hf L l A.length A rfl a ha
+      rcases Nat.eq_or_lt_of_le h1 with hj1 | hj1
+      · subst hj1
+        simp only [Nat.pow_one]
+        rw [i2 _ (by
+          intro b hb j' g1 g2 e
+          have hb1 := hbound a ha 1 (by omega)
+          obtain ⟨a', ha', rfl⟩ := k3 b hb
+          have hb2 := hbound a' ha' (j' + 1) (by omega)
+          rw [div_pow_succ'] at hb2
+          simp only [Nat.pow_one] at hb1
+          have := (nIdx_inj (by omega) (by omega) hb1 (by rw [show l + 1 + j' = l + (j' + 1) by omega]; exact hb2) e).1
+          omega)]
+        exact s3 a ha
+      · obtain ⟨j', rfl⟩ : ∃ j', j = j' + 1 := ⟨j - 1, by omega⟩
+        have := i3 (a / 2) hpa j' (by omega) (by omega)
+        rw [← div_pow_succ', show l + 1 + j' = l + (j' + 1) by omega] at this
+        rw [this]
+        split
+        · rfl
+        · apply s2
+          intro b hb e
+          have hb1 := hbound a ha (j' + 1) (by omega)
+          have hb2 := hbound b hb 1 (by omega)
+          simp only [Nat.pow_one] at hb2
+          have := (nIdx_inj (by omega) (by omega) hb1 hb2 e).1
+          omega
+
+
+/-! ### several updates of a list -/
+
+def setMany {α : Type} (d : List α) (ps : List (Nat × α)) : List α := ps.foldl (fun d pu => d.set pu.1 pu.2) d
+
+theorem length_setMany {α : Type} (ps : List (Nat × α)) : ∀ d : List α, (setMany d ps).length = d.length := by
+  induction ps with
+  | nil => intro d; rfl
+  | cons a r ih => intro d; simp only [setMany, List.foldl_cons] at ih ⊢; rw [ih]; simp
+
+theorem getElem?_setMany_not {α : Type} (ps : List (Nat × α)) (i : Nat) : ∀ d : List α,
+    (∀ e ∈ ps, e.1 ≠ i) → (setMany d ps)[i]? = d[i]? := by
+  induction ps with
+  | nil => intro d _; rfl
+  | cons a r ih =>
+    intro d h
+    simp only [setMany, List.foldl_cons] at ih ⊢
+    rw [ih _ (fun e he => h e (by simp [he])), List.getElem?_set_ne (h a (by simp))]
+
+theorem getElem?_setMany_mem {α : Type} (ps : List (Nat × α)) (i : Nat) (x : α) : ∀ d : List α,
+    (ps.map (·.1)).Nodup → (i, x) ∈ ps → i < d.length → (setMany d ps)[i]? = some x := by
+  induction ps with
+  | nil => intro d _ h; cases h
+  | cons a r ih =>
+    intro d hnd hm hi
+    simp only [List.map_cons] at hnd
+    have hnd' := List.nodup_cons.mp hnd
+    simp only [setMany, List.foldl_cons] at ih ⊢
+    simp only [List.mem_cons] at hm
+    rcases hm with rfl | hm
+    · have := getElem?_setMany_not r i (d.set i x) (by
+        intro e he e1
+        apply hnd'.1
+        rw [← e1]; exact List.mem_map.mpr ⟨e, he, rfl⟩)
+      simp only [setMany] at this
+      rw [this]
+      simp [hi]
+    · exact ih _ hnd'.2 hm (by simpa using hi)
+
+theorem map_setMany {α β : Type} (f : α → β) (ps : List (Nat × α)) : ∀ d : List α,
+    (setMany d ps).map f = setMany (d.map f) (ps.map fun pu => (pu.1, f pu.2)) := by
+  induction ps with
+  | nil => intro d; rfl
+  | cons a r ih =>
+    intro d
+    simp only [setMany, List.foldl_cons, List.map_cons] at ih ⊢
+    rw [ih, List.map_set]
+
+theorem blk_setMany_other (L : List Bytes) (ps : List (Nat × Bytes)) (l k : Nat)
+    (h : ∀ e ∈ ps, e.1 / 2 ^ l ≠ k) : blk (setMany L ps) l k = blk L l k := by
+  apply List.ext_getElem?
+  intro j
+  rw [getElem?_blk, getElem?_blk]
+  split
+  · rename_i hj
+    apply getElem?_setMany_not
+    intro e he e1
+    apply h e he
+    rw [e1]
+    exact add_lt_div hj
+  · rfl
+
+
+/-! ### `Update` of several leaves -/
+
+theorem update_multi (hf : HashFns) (t t' : Tree) (L : List Bytes) (hst : Stored hf t L)
+    (hsize : t.core.size = L.length) (hpath : t.core.path = peaks hf L) (pos : List Nat) (upd : List Bytes)
+    (hnd : pos.Nodup) (hlt : ∀ p ∈ pos, p < L.length) (hlen : pos.length = upd.length)
+    (hu : update hf t (pos.map fun p => 2 ^ getHeight L.length + p) upd = some t') :
+    t'.core = ⟨rootH hf (setMany L (pos.zip (upd.map hf.leaf))),
+      peaks hf (setMany L (pos.zip (upd.map hf.leaf))), L.length⟩ := by
+  -- the update list is not empty
+  have hne : pos ≠ [] := by
+    intro e
+    subst e
+    have : upd = [] := List.eq_nil_of_length_eq_zero (by simpa using hlen.symm)
+    subst this
+    unfold update at hu
+    simp only [List.map_nil, calcPathNodes] at hu
+    split at hu
+    · cases hu
+    · split at hu
+      · cases hu
+      · split at hu
+        · cases hu
+        · simp at hu
+  obtain ⟨p0, hp0⟩ := List.exists_mem_of_ne_nil pos hne
+  have hn : 1 ≤ L.length := by have := hlt p0 hp0; omega
+  have hh1 : 1 ≤ getHeight L.length := by simp [getHeight]
+  have hnH : L.length ≤ 2 ^ (getHeight L.length - 1) := by
+    have := le_two_pow_clog2 L.length hn
+    simpa [getHeight] using this
+  have hlenq : (upd.map hf.leaf).length = pos.length := by simp; omega
+  generalize hqdef : upd.map hf.leaf = q at hlenq
+  generalize hMdef : setMany L (pos.zip q) = M
+  have hM : M.length = L.length := by rw [← hMdef]; exact length_setMany _ _
+  have hzipnd : ((pos.zip q).map (·.1)).Nodup := by rw [List.map_fst_zip (by omega)]; exact hnd
+  have hMval : ∀ e ∈ pos.zip q, M[e.1]? = some e.2 := by
+    intro e he
+    rw [← hMdef]
+    exact getElem?_setMany_mem _ e.1 e.2 L hzipnd he (hlt e.1 (List.of_mem_zip he).1)
+  have hU : ∀ l k, (∀ p ∈ pos, p / 2 ^ l ≠ k) → k * 2 ^ l < L.length →
+      rootH hf (blk L l k) = rootH hf (blk M l k) := by
+    intro l k hk _
+    rw [← hMdef, blk_setMany_other L _ l k (fun e he => hk e.1 (List.of_mem_zip he).1)]
+  -- the layer of the updated leaves
+  have hl0 : (layer0 pos q).length = pos.length := by
+    rw [(layer0_perm pos q).length_eq]; simp; omega
+  have hposlen : 0 < pos.length := List.length_pos_iff.mpr hne
+  have hmem : ∀ e, e ∈ layer0 pos q ↔ e ∈ pos.zip q := fun e => (layer0_perm pos q).mem_iff
+  have hA0ne : (layer0 pos q).map (·.1) ≠ [] := by
+    intro e
+    have : ((layer0 pos q).map (·.1)).length = 0 := by rw [e]; rfl
+    rw [List.length_map, hl0] at this; omega
+  have hA0mem : ∀ p, p ∈ (layer0 pos q).map (·.1) ↔ p ∈ pos := by
+    intro p
+    constructor
+    · intro hp
+      simp only [List.mem_map] at hp
+      obtain ⟨e, he, rfl⟩ := hp
+      exact (List.of_mem_zip ((hmem e).1 he)).1
+    · intro hp
+      have hpz : p ∈ (pos.zip q).map (·.1) := by rw [List.map_fst_zip (by omega)]; exact hp
+      simp only [List.mem_map] at hpz ⊢
+      obtain ⟨e, he, rfl⟩ := hpz
+      exact ⟨e, (hmem e).2 he, rfl⟩
+  have hval : layer0 pos q = valLay hf M 0 ((layer0 pos q).map (·.1)) := by
+    unfold valLay
+    rw [List.map_map]
+    conv => lhs; rw [← List.map_id (layer0 pos q)]
+    apply List.map_congr_left
+    intro e he
+    simp only [id, Function.comp]
+    rw [blk_leaf M e.1 e.2 (hMval e ((hmem e).1 he)), rootH_singleton]
+  unfold update at hu
+  rw [hsize, if_neg (by omega)] at hu
+  simp only at hu
+  split at hu
+  · cases hu
+  · -- the sibling hashes
+    cases hsib : siblingHashes t (pos.map fun p => 2 ^ getHeight L.length + p) with
+    | none => rw [hsib] at hu; cases hu
+    | some sibs =>
+      rw [hsib] at hu
+      simp only at hu
+      have hsibs : sibs = sibSpec hf L (getHeight L.length - 1) 0 ((layer0 pos q).map (·.1)) := by
+        rcases siblingHashes_spec hf t L hst hsize pos q hnd hlt hlenq hne with h | ⟨h, _⟩
+        · rw [h] at hsib; exact (Option.some.inj hsib).symm
+        · rw [h] at hsib; cases hsib
+      -- the recomputed nodes
+      rw [hqdef] at hu
+      cases hcalc : calcPathNodes hf q L.length (pos.map fun p => 2 ^ getHeight L.length + p) sibs with
+      | none => rw [hcalc] at hu; cases hu
+      | some calcd =>
+        rw [hcalc] at hu
+        simp only at hu
+        obtain ⟨s1, s2, s3⟩ := spec_mixed hf L M hM (getHeight L.length) hnH pos hU (getHeight L.length - 1) 0
+          ((layer0 pos q).map (·.1)) (initResult q (pos.map fun p => 2 ^ getHeight L.length + p) []) []
+          (by omega) hA0ne
+          (by intro k hk; simpa using hlt k ((hA0mem k).1 hk))
+          (List.Pairwise.map _ (fun a b hab => hab) (layer0_asc pos q hnd hlenq))
+          (by intro p hp; left; simpa using (hA0mem p).2 hp)
+        rw [List.append_nil, ← hval, ← hsibs] at s1 s2 s3
+        have hcalcd : calcd = resSpec hf L.length (getHeight L.length) (getHeight L.length - 1) 0 (layer0 pos q)
+              (initResult q (pos.map fun p => 2 ^ getHeight L.length + p) []) sibs ∧
+            calcd.lookup 2 = some (rootH hf M) := by
+          rcases calcPathNodes_spec hf L.length hn pos q sibs hnd hlt hlenq hne with hs | ⟨hnone, _⟩
+          · rw [s1] at hs
+            simp only at hs
+            obtain ⟨res, e1, e2, e3⟩ := hs
+            rw [hcalc] at e2
+            have : calcd = res := Option.some.inj e2
+            subst this
+            exact ⟨e1, e3⟩
+          · rw [hnone] at hcalc; cases hcalc
+        obtain ⟨hcd, hroot2⟩ := hcalcd
+        rw [← hcd] at s2 s3
+        -- the initial result map
+        have hndI : (pos.map fun p => 2 ^ getHeight L.length + p).Nodup :=
+          List.Pairwise.map _ (fun a b (hab : a ≠ b) => by intro e; exact hab (by omega)) hnd
+        have hpos2 : 0 < 2 ^ getHeight L.length := Nat.pow_pos (by decide)
+        obtain ⟨hi1, hi2⟩ := initResult_lookup (pos.map fun p => 2 ^ getHeight L.length + p) q [] hndI
+          (by intro i hi; simp only [List.mem_map] at hi; obtain ⟨p, _, rfl⟩ := hi; omega) (by simpa using hlenq)
+        have hR0 : ∀ p ∈ pos, ∃ x, (initResult q (pos.map fun p => 2 ^ getHeight L.length + p) []).lookup
+            (nIdx (getHeight L.length) 0 p) = some x ∧ M[p]? = some x := by
+          intro p hp
+          have hpz : p ∈ (pos.zip q).map (·.1) := by rw [List.map_fst_zip (by omega)]; exact hp
+          simp only [List.mem_map] at hpz
+          obtain ⟨e, he, rfl⟩ := hpz
+          refine ⟨e.2, ?_, hMval e he⟩
+          have hin : (2 ^ getHeight L.length + e.1, e.2) ∈ (pos.map fun p => 2 ^ getHeight L.length + p).zip q := by
+            rw [List.zip_map_left]
+            exact List.mem_map.mpr ⟨e, he, rfl⟩
+          have := hi2 _ hin
+          rw [nIdx_zero]; exact this
+        -- the stored nodes, the root and the append path
+        cases hsave : saveCalculated (getHeight L.length) calcd t with
+        | none => rw [hsave] at hu; cases hu
+        | some t1 =>
+          rw [hsave] at hu
+          simp only at hu
+          cases hrp : refreshPath calcd L.length (getHeight L.length) (getHeight L.length) 0 t.core.path with
+          | none => rw [hroot2, hrp] at hu; cases hu
+          | some p' =>
+            rw [hroot2, hrp] at hu
+            simp only [Option.some.injEq] at hu
+            rw [← hu]
+            simp only
+            have hlt2 := lt_two_pow_getHeight L.length hn
+            have hp' : p' = peaks hf M := by
+              rw [hpath, peaks_eq_peaksBits hf L _ hlt2] at hrp
+              rw [peaks_eq_peaksBits hf M (getHeight L.length) (by rw [hM]; exact hlt2)]
+              -- facts about a peak
+              have hpeak : ∀ layer idx, (L.length / 2 ^ layer) % 2 = 1 →
+                  locIndex (layer, L.length / 2 ^ layer - 1) (getHeight L.length) = some idx →
+                  layer ≤ getHeight L.length - 1 ∧
+                  L.length / 2 ^ layer - 1 < 2 ^ (getHeight L.length - 1 - layer) ∧
+                  idx = nIdx (getHeight L.length) layer (L.length / 2 ^ layer - 1) ∧
+                  (L.length / 2 ^ layer - 1 + 1) * 2 ^ layer ≤ L.length := by
+                intro layer idx hb hli
+                have hq1 : 1 ≤ L.length / 2 ^ layer := by
+                  generalize L.length / 2 ^ layer = q at hb; omega
+                have hp2 : 0 < 2 ^ layer := Nat.pow_pos (by decide)
+                have hle : 2 ^ layer ≤ L.length := by
+                  have := (Nat.le_div_iff_mul_le hp2).1 hq1; omega
+                have hlay : layer ≤ getHeight L.length - 1 := by
+                  have : 2 ^ layer ≤ 2 ^ (getHeight L.length - 1) := Nat.le_trans hle hnH
+                  exact (Nat.pow_le_pow_iff_right (by decide)).1 this
+                have hk : L.length / 2 ^ layer - 1 < 2 ^ (getHeight L.length - 1 - layer) := by
+                  have : L.length / 2 ^ layer ≤ 2 ^ (getHeight L.length - 1) / 2 ^ layer := Nat.div_le_div_right hnH
+                  rw [Nat.pow_div hlay (by decide)] at this
+                  omega
+                refine ⟨hlay, hk, locIndex_eq' _ _ _ idx (by omega) hk hli, ?_⟩
+                rw [show L.length / 2 ^ layer - 1 + 1 = L.length / 2 ^ layer by omega]
+                exact Nat.div_mul_le_self _ _
+              -- a peak that contains an updated leaf has been recomputed
+              have hanc : ∀ layer idx, (L.length / 2 ^ layer) % 2 = 1 →
+                  locIndex (layer, L.length / 2 ^ layer - 1) (getHeight L.length) = some idx →
+                  ∀ p ∈ pos, p / 2 ^ layer = L.length / 2 ^ layer - 1 →
+                  calcd.lookup idx = some (rootH hf (blk M layer (L.length / 2 ^ layer - 1))) := by
+                intro layer idx hb hli p hp hpk
+                obtain ⟨hlay, hk, hidx, hfull⟩ := hpeak layer idx hb hli
+                rw [hidx]
+                by_cases hl0' : layer = 0
+                · subst hl0'
+                  simp only [Nat.pow_zero, Nat.div_one] at hpk ⊢
+                  rw [← hpk]
+                  obtain ⟨x, hx1, hx2⟩ := hR0 p hp
+                  rw [s2 _ (by
+                    intro a ha j h1 h2 e
+                    have hpb : p < 2 ^ (getHeight L.length - 0) := by
+                      have := hlt p hp
+                      have : 2 ^ (getHeight L.length - 1) ≤ 2 ^ (getHeight L.length - 0) :=
+                        Nat.pow_le_pow_right (by decide) (by omega)
+                      omega
+                    have hab := Nat.lt_of_lt_of_le (pos_lt_of_nonempty hnH (show 0 + j ≤ getHeight L.length - 1 by omega)
+                      (anc_nonempty j (show a * 2 ^ 0 < L.length by simpa using hlt a ((hA0mem a).1 ha))))
+                      (pow_pred_le (h := getHeight L.length) (l := 0 + j))
+                    have := (nIdx_inj (by omega) (by omega) hpb hab e).1
+                    omega), hx1, blk_leaf M p x hx2, rootH_singleton]
+                · have := s3 p ((hA0mem p).2 hp) layer (by omega) hlay
+                  rw [Nat.zero_add, hpk] at this
+                  rw [this, if_pos]
+                  right
+                  refine ⟨by omega, ?_⟩
+                  have e := two_mul_pow_pred (show 1 ≤ layer by omega)
+                  have hp2 : 0 < 2 ^ (layer - 1) := Nat.pow_pos (by decide)
+                  generalize L.length / 2 ^ layer - 1 = kk at hfull ⊢
+                  rw [← e] at hfull
+                  have : (kk + 1) * (2 * 2 ^ (layer - 1)) = (2 * kk + 1) * 2 ^ (layer - 1) + 2 ^ (layer - 1) := by ring
+                  omega
+              refine refreshPath_spec hf L M hM calcd (getHeight L.length) ?_ ?_ _ 0 p' hrp
+              · -- a recomputed entry has the value of the new list
+                intro layer idx v hb hli hlk
+                obtain ⟨hlay, hk, hidx, hfull⟩ := hpeak layer idx hb hli
+                by_cases hex : ∃ p ∈ pos, p / 2 ^ layer = L.length / 2 ^ layer - 1
+                · obtain ⟨p, hp, hpk⟩ := hex
+                  rw [hanc layer idx hb hli p hp hpk] at hlk
+                  exact (Option.some.inj hlk).symm
+                · -- no updated leaf below: the key is not in the map
+                  exfalso
+                  have hkb := Nat.lt_of_lt_of_le hk (pow_pred_le (h := getHeight L.length) (l := layer))
+                  rw [hidx, s2 _ (by
+                    intro a ha j h1 h2 e
+                    have hab := Nat.lt_of_lt_of_le (pos_lt_of_nonempty hnH (show 0 + j ≤ getHeight L.length - 1 by omega)
+                      (anc_nonempty j (show a * 2 ^ 0 < L.length by simpa using hlt a ((hA0mem a).1 ha))))
+                      (pow_pred_le (h := getHeight L.length) (l := 0 + j))
+                    obtain ⟨e1, e2⟩ := nIdx_inj (by omega) (by omega) hkb hab e
+                    apply hex
+                    refine ⟨a, (hA0mem a).1 ha, ?_⟩
+                    simp only [Nat.zero_add] at e1
+                    subst e1
+                    exact e2.symm)] at hlk
+                  have hkey : nIdx (getHeight L.length) layer (L.length / 2 ^ layer - 1)
+                      ∈ pos.map fun p => 2 ^ getHeight L.length + p := by
+                    rcases Classical.em (nIdx (getHeight L.length) layer (L.length / 2 ^ layer - 1)
+                      ∈ pos.map fun p => 2 ^ getHeight L.length + p) with h | h
+                    · exact h
+                    · rw [hi1 _ h] at hlk; cases hlk
+                  simp only [List.mem_map] at hkey
+                  obtain ⟨p, hp, hpe⟩ := hkey
+                  have hpb : p < 2 ^ (getHeight L.length - 0) := by
+                    have := hlt p hp
+                    have : 2 ^ (getHeight L.length - 1) ≤ 2 ^ (getHeight L.length - 0) :=
+                      Nat.pow_le_pow_right (by decide) (by omega)
+                    omega
+                  obtain ⟨e1, e2⟩ := nIdx_inj (l := 0) (by omega) (by omega) hpb hkb (by rw [nIdx_zero]; exact hpe)
+                  apply hex
+                  subst e1
+                  exact ⟨p, hp, by simpa using e2⟩
+              · -- an entry that is not recomputed has no updated leaf below
+                intro layer idx hb hli hlk
+                obtain ⟨hlay, hk, hidx, hfull⟩ := hpeak layer idx hb hli
+                apply hU
+                · intro p hp hpk
+                  rw [hanc layer idx hb hli p hp hpk] at hlk
+                  cases hlk
+                · have hp2 : 0 < 2 ^ layer := Nat.pow_pos (by decide)
+                  rw [Nat.add_mul, Nat.one_mul] at hfull
+                  omega
+            rw [hp']
 
 
 end LiskVerif.RMT
